@@ -38,7 +38,7 @@ def _descends_from(pid, root):
     return False
 
 
-def _memory_watchdog(stop, killed):
+def _memory_watchdog(stop, killed, cap_kb=None):
     """CBMC can grow to tens of GB on a harness it cannot handle (possibly only under a changed /repo):
     kill any cbmc process started by this run whose resident set passes the cap, so that the harness
     ends as a tool error (exit 2) instead of taking the machine down."""
@@ -54,7 +54,7 @@ def _memory_watchdog(stop, killed):
                 for line in open(f'/proc/{d}/status'):
                     if line.startswith('VmRSS:'):
                         rss = int(line.split()[1])
-                if rss > MEM_CAP_KB and _descends_from(int(d), me):
+                if rss > (cap_kb or MEM_CAP_KB) and _descends_from(int(d), me):
                     os.kill(int(d), 9)
                     killed.append(int(d))
             except Exception:
@@ -91,6 +91,7 @@ class KaniUnit:
         self.appends = d.get('append', [])
         self.contracts = d.get('contract', [])
         self.patch_ttl_cache = d.get('patch_ttl_cache', False)
+        self.mem_gb = d.get('mem_gb', 0)   # per-unit watchdog cap (GiB) when a harness is known to need more than the default
         self.flags = d.get('flags', [])
         self.unwind = d.get('default_unwind')
         self.timeout = d.get('harness_timeout', '300s')
@@ -213,12 +214,13 @@ def run_unit(scratch, unit, harnesses, log_dir, extra_flags=(), timeout_s=3600):
     t0 = time.time()
     stop_watch = threading.Event()
     killed = []
-    threading.Thread(target=_memory_watchdog, args=(stop_watch, killed), daemon=True).start()
+    cap_kb = max(MEM_CAP_KB, int(getattr(unit, 'mem_gb', 0) or 0) * 1048576)
+    threading.Thread(target=_memory_watchdog, args=(stop_watch, killed, cap_kb), daemon=True).start()
     try:
         p = subprocess.run(cmd, cwd=scratch.dir, capture_output=True, text=True, env=env, timeout=timeout_s)
         out = p.stdout + '\n' + p.stderr
         if killed:
-            out += f'\nVX: memory watchdog killed {len(killed)} cbmc process(es) above {MEM_CAP_KB // 1048576} GiB resident\n'
+            out += f'\nVX: memory watchdog killed {len(killed)} cbmc process(es) above {cap_kb // 1048576} GiB resident\n'
         rc = p.returncode
     except subprocess.TimeoutExpired as e:
         out = (e.stdout or b'').decode(errors='replace') if isinstance(e.stdout, bytes) else (e.stdout or '')
